@@ -21,11 +21,13 @@ EXTENDS Naturals, Integers, Sequences, FiniteSets, TLC
 
 CONSTANTS DictRows, NonDict, Only3Rows, IdOf(_), Versions, Pre3Versions, V2, V3, MaxLen,
           IdxArgs,      \* index arguments explored (integers, negative too)
-          NoArg         \* "argument not given"
+          NoArg,        \* "argument not given"
+          Park          \* BOOLEAN: follow the parent of a derived grid too (two live grids)
 
-VARIABLES rows, ver, given, op, res
+VARIABLES rows, ver, given, op, res,
+          parked        \* the other live grid: the parent a grid was derived from (or the derived grid, after a switch)
 
-vars == <<rows, ver, given, op, res>>
+vars == <<rows, ver, given, op, res, parked>>
 
 Range(s) == {s[i] : i \in 1..Len(s)}
 Min(a, b) == IF a < b THEN a ELSE b
@@ -169,22 +171,41 @@ Ops ==
 
 Cur == St(rows, ver, given)
 
-Init == /\ rows = <<>>
+(***************************************************************************)
+(* Two live grids (C15 "derived grids", C14): a derived grid is a grid of  *)
+(* its own.  With Park, deriving keeps the parent as `parked' and the      *)
+(* history may switch between the two at any time; no operation on one     *)
+(* changes the rows, the version or the lookups of the other (a derived    *)
+(* grid shares row objects with its parent, nothing else).                 *)
+(***************************************************************************)
+NoGrid == [has |-> FALSE]
+ParkOf(s) == [has |-> TRUE, rows |-> s.rows, ver |-> s.ver, given |-> s.given]
+Switch == /\ Park /\ parked.has
+          /\ rows' = parked.rows /\ ver' = parked.ver /\ given' = parked.given
+          /\ parked' = ParkOf(Cur)
+          /\ op' = [name |-> "switch"]
+          /\ res' = <<"None">>
+
+Init == /\ parked = NoGrid
+        /\ rows = <<>>
         /\ \/ ver \in Versions /\ given = TRUE          \* Grid(version=v)
            \/ ver = V2 /\ given = FALSE                    \* Grid(): 2.0 until a 3.0-only value is detected
         /\ op = [name |-> "init"]
         /\ res = <<"None">>
 
-Next == \E o \in Ops : \E out \in Outcomes(Cur, o) :
+Step == \E o \in Ops : \E out \in Outcomes(Cur, o) :
             /\ Len(out.rows) <= MaxLen
             /\ rows' = out.rows
             /\ ver' = out.ver
             /\ given' = (given \/ out.res = <<"grid">>)   \* derived grids are built with an explicit version
             /\ op' = o
             /\ res' = out.res
+            /\ parked' = IF Park /\ out.res = <<"grid">> THEN ParkOf(Cur) ELSE parked
+
+Next == Step \/ Switch
 
 Spec == Init /\ [][Next]_vars
-View == <<rows, ver, given>>
+View == <<rows, ver, given, parked>>
 
 (***************************************************************************)
 (* Properties.                                                             *)
@@ -197,7 +218,12 @@ IsError(r)   == r[1] \in {"TypeError", "ValueError", "IndexError"}
 RefusedKeepsRows ==
     [][(IsError(res') /\ op'.name \notin {"extend", "iadd"}) => rows' = rows]_vars
 \* C10: an explicit version is never changed by any operation
-GivenVersionFixed == [][given => ver' = ver]_vars
+GivenVersionFixed == [][(given /\ op'.name # "switch") => ver' = ver]_vars
+\* C14/C15: the two live grids are independent -- only deriving and switching touch the parked one, and the
+\* parked grid satisfies the same state invariants as the current one
+ParkedIndependent == [][(op'.name # "switch" /\ res' # <<"grid">>) => parked' = parked]_vars
+ParkedInv == parked.has => /\ Range(parked.rows) \subseteq DictRows
+                           /\ \A r \in Range(parked.rows) : r \in Only3Rows => ~Pre3(parked.ver)
 \* C15: after every history, a lookup result permitted by the model is a row currently present
 LookupSound == \A k \in {IdOf(r) : r \in DictRows} \ {0} :
                    \A r \in LookupAllowed(rows, k) : r \in Range(rows) /\ IdOf(r) = k
